@@ -190,7 +190,18 @@ def run_one(tmpl, case, method, frontend, leak_marker=b"SECRET outside the root"
         w = World(frontend=frontend, prefix="/", root=root, autocreate=False)
         try:
             with fsmon.Monitor() as mon:
-                resp = send(w, method, target)
+                if method == "XMLENT":
+                    # an XML request body that declares an external entity naming a file outside
+                    # the root and uses it as a property value; then the value is read back
+                    ent = ('<?xml version="1.0"?><!DOCTYPE d [<!ENTITY e SYSTEM "file://%s">]>'
+                           '<D:propertyupdate xmlns:D="DAV:"><D:set><D:prop><D:displayname>&e;</D:displayname>'
+                           '</D:prop></D:set></D:propertyupdate>' % os.path.join(abs_path, "a.ics")).encode()
+                    w.raw("PROPPATCH", "/cal/", [("Content-Type", "text/xml")], ent)
+                    w.raw("REPORT", "/cal/", [("Content-Type", "text/xml"), ("Depth", "1")],
+                          ent.replace(b"D:propertyupdate", b"D:sync-collection"))
+                    resp = w.raw("PROPFIND", "/cal/", [("Depth", "0"), ("Content-Type", "text/xml")], gamma.PROPFIND_ALL)
+                else:
+                    resp = send(w, method, target)
         finally:
             w.stop()
         bad = []
